@@ -9,3 +9,5 @@ import NLE.Theorems.C04
 import NLE.Theorems.C15
 import NLE.Theorems.C16
 import NLE.Theorems.C17
+import NLE.Theorems.C17Round
+import NLE.Model.Round
